@@ -88,6 +88,12 @@ class C08(InterpProp):
             rnd.shuffle(free)
             for c, o in zip(texts[:2], free):
                 o.on_entry = c
+        if rnd.random() < 0.25:
+            # the same condition, word for word, under two kinds of one contract (a precondition that is also a
+            # postcondition or an invariant): it is two conditions
+            cands = [o for o in objs if o.preconditions]
+            for o in rnd.sample(cands, min(2, len(cands))):
+                rnd.choice([o.postconditions, o.invariants]).append(o.preconditions[0])
         self._n = n      # the flags k0..k(n-1) are given to the interpreter as its initial context (all True)
 
     def special_case(self, rnd):
